@@ -51,7 +51,9 @@ def run(bid, ws, props):
             res["error"] = out[-800:]
             return res
         res["applies"] = True
-        rc, out = sh("go build ./... && go build -tags verif ./... && go vet ./... && go test -vet=off -count=1 -timeout 20m ./...", cwd=wt)
+        suite = "go build ./... && go build -tags verif ./..." if os.environ.get("BENIGN_SKIP_SUITE") else \
+            "go build ./... && go build -tags verif ./... && go vet ./... && go test -vet=off -count=1 -timeout 20m ./..."
+        rc, out = sh(suite, cwd=wt)
         res["builds_and_suite_passes"] = rc == 0
         if rc != 0:
             res["error"] = out[-1500:]
